@@ -877,3 +877,11 @@ pub mod samename {
     #[derive(Clone, Copy, Debug, Default, PartialEq, Eq, PartialOrd, Ord, Hash)]
     pub struct X<T>(pub T);
 }
+
+/// identity projection with a type argument on the trait: `<X as IdtP<PhantomData<u8>>>::Same` is `X`, spelled with another type inside
+pub trait IdtP<M: ?Sized> {
+    type Same;
+}
+impl<X, M: ?Sized> IdtP<M> for X {
+    type Same = X;
+}
